@@ -243,6 +243,9 @@ def handle (st : DState) : List String → P (DState × String)
     | none => pure (st, "err\tinvalid")
   | ["spec.tr31_build", k, h, forms, pm, key, pad, lower] => do
     pure (st, replyS (.ok (Spec.TR31.build c (← decBytes k) (← decHeader h) (← decStr forms) (← decNat pm) (← decBytes key) (← decBytes pad) ((← decNat lower) != 0))))
+  | ["spec.tr31_build_fp", k, h, forms, extra, fill, form, pid, key, pad, lower] => do
+    pure (st, replyS (.ok (Spec.TR31.buildForeignPad c (← decBytes k) (← decHeader h) (← decStr forms) (← decNat extra) (← decNat fill) (← decNat form)
+      (← decStr pid) (← decBytes key) (← decBytes pad) ((← decNat lower) != 0))))
   | ["spec.tr31_build_raw", k, h, forms, pm, clear, lower] => do
     pure (st, replyS (.ok (Spec.TR31.buildRaw c (← decBytes k) (← decHeader h) (← decStr forms) (← decNat pm) (← decBytes clear) ((← decNat lower) != 0))))
   | ["spec.tr31_build_rawenc", k, h, enc, lower] => do
